@@ -811,8 +811,12 @@ def thresh(ctx):
     for body, b, c, op, k in thresh_sites(ctx):
         ctx.note(body)
         # which side produces Err?
+        stops = {a_["poll_bb"] for a_ in body.awaits()} | {x for x in body.reach if body.term(x)["k"] == "yield"}
+
         def side_has_err(s_):
-            reg = body.reachable_from(s_, avoid=[x for x in body.succ(b) if x != s_])
+            # what the decision leads to directly: up to the next suspension point (later checks of the same operation,
+            # e.g. the PUBCOMP check after a good PUBREC, are decisions of their own)
+            reg = body.reachable_from(s_, avoid=[x for x in body.succ(b) if x != s_] + list(stops))
             vs = set()
             for x in reg:
                 for st in body.blocks[x]["stmts"]:
